@@ -201,6 +201,7 @@ def execute_and_judge(ctx, vh, cases, name="main", batch=4000):
     """Returns (findings, exercised counter, nlines). A finding: dict(pred, sig, case, kind, c)."""
     findings, ex = [], {}
     nlines = 0
+    agree = [0, 0]     # L2 model's alignment prediction vs the judged file: [agree, disagree]
     for b0 in range(0, len(cases), batch):
         part = cases[b0:b0 + batch]
         d = ctx.scratch("%s-exec-%d" % (name, b0))
@@ -214,9 +215,12 @@ def execute_and_judge(ctx, vh, cases, name="main", batch=4000):
         for i, v in judge_trace(ctx, "%s-%d" % (name, b0), raw):
             for e in v["ex"]:
                 ex[e] = ex.get(e, 0) + 1
+            head = json.loads(raw[i][:raw[i].index(',"src"')] + "}")
+            if head["tag"].startswith("l2-"):
+                predicted = "L2Aligned" in part[head["c"]].get("risk", [])
+                agree[0 if predicted == ("C06.Aligned" in v["bad"]) else 1] += 1
             if not v["bad"]:
                 continue
-            head = json.loads(raw[i][:raw[i].index(',"src"')] + "}")
             for pred in v["bad"]:
                 findings.append({"pred": pred, "sig": signature(pred, v["det"]), "case": part[head["c"]], "kind": head["kind"],
                                  "c": b0 + head["c"], "tag": head["tag"]})
@@ -227,6 +231,8 @@ def execute_and_judge(ctx, vh, cases, name="main", batch=4000):
                     shutil.rmtree(os.path.join(ctx.work, f), ignore_errors=True)
     ctx.traces += len(cases)
     ctx.evaluations += nlines
+    ctx.extra["l2_alignment_prediction"] = {"agrees": agree[0] + ctx.extra.get("l2_alignment_prediction", {}).get("agrees", 0),
+                                            "disagrees": agree[1] + ctx.extra.get("l2_alignment_prediction", {}).get("disagrees", 0)}
     return findings, ex, nlines
 
 
